@@ -68,9 +68,11 @@ func (n *ServerNode) DoRegister(gca glow.PublicKey, signer *KeyPair) bool {
 func (n *ServerNode) DoAuthorize(a glow.EquipmentAuthorization) AuthResult {
 	res := n.PostJSON("/api/v1/authorize-equipment", a)
 	want := n.Model.Authorize(a)
+	// The answer to an identical resubmission and to a conflicting one is not
+	// part of any property (only their effect on the state is); a new valid
+	// authorization must be accepted and an invalid one refused.
 	ok := res.Status == 200
-	wantOK := want == AuthNew || want == AuthDuplicate
-	if ok != wantOK {
+	if (want == AuthNew && !ok) || (want == AuthRefused && ok) {
 		n.W.Fail(n.W.Prop+".authorize", want.String(), "authorization for id %d: status %d (%s), model says %s", a.ShortID, res.Status, trim(res.Body), want)
 	}
 	return want
